@@ -210,4 +210,200 @@ theorem InvC_of_reachable (h : Reachable P s) : InvC P s := by
   | step _ ht ih => exact InvC_step ih ht
 
 end C
+
+/-! ### Group D: every lookup leaves a dependency the builder will wait for -/
+
+/-- builder `o` has secured the shared function `k`: it exists and its creator is `o` itself,
+a task `o` will wait for, or a task that was transitively done -/
+def Dep (s : St) (o : Pid) (k : Key) : Prop :=
+  ∃ o', s.memo.lookup k = some o' ∧ (o' = o ∨ o' ∈ s.edges o ∨ s.trans o' = true)
+
+structure InvD (P : Prog) (s : St) : Prop where
+  built_dep : ∀ f o, (f, o) ∈ s.built → ∀ k ∈ P.refs f, Dep s o k
+  cur_dep : ∀ o q f ks, s.phase o = .building q (some (f, ks)) →
+    ∃ pre, P.refs f = pre ++ ks ∧ ∀ k ∈ pre, Dep s o k
+
+theorem InvD_init (P : Prog) : InvD P init := by
+  constructor <;> simp [init]
+
+theorem lookup_append_of_some {l l' : List (Key × Pid)} {k : Key} {o : Pid}
+    (h : l.lookup k = some o) : (l ++ l').lookup k = some o := by
+  rw [List.lookup_append, h]; rfl
+
+theorem lookup_append_of_none {l : List (Key × Pid)} {k : Key} {o : Pid}
+    (h : l.lookup k = none) : (l ++ [(k, o)]).lookup k = some o := by
+  rw [List.lookup_append, h]; simp
+
+section D
+variable {P : Prog} {s t : St} {p : Pid} {l : Label}
+
+theorem Dep_mono (ht : Trans P s p l t) {o : Pid} {k : Key} (h : Dep s o k) : Dep t o k := by
+  obtain ⟨o', hl, hd⟩ := h
+  have := @mem_insertEdge
+  cases ht with
+  | create hph hl' => exact ⟨o', lookup_append_of_some hl, hd⟩
+  | hitEdge hph hl' ho htr hd' => refine ⟨o', hl, ?_⟩; grind
+  | waitEnd hph hu => refine ⟨o', hl, ?_⟩; grind
+  | _ => exact ⟨o', hl, hd⟩
+
+theorem InvD_built_dep (h : InvD P s) (ht : Trans P s p l t) :
+    ∀ f o, (f, o) ∈ t.built → ∀ k ∈ P.refs f, Dep t o k := by
+  obtain ⟨d1, d2⟩ := h
+  intro f o hb k hk
+  have hmono := @Dep_mono P s t p l ht
+  cases ht with
+  | @fnDone f' q hph =>
+    simp only [List.mem_append, List.mem_singleton, Prod.mk.injEq] at hb
+    rcases hb with hb | ⟨e1, e2⟩
+    · exact hmono (d1 f o hb k hk)
+    · subst e1 e2
+      obtain ⟨pre, hp, hd⟩ := d2 _ _ _ _ hph
+      simp at hp; subst hp
+      exact hmono (hd k hk)
+  | _ => exact hmono (d1 f o hb k hk)
+
+theorem InvD_cur_dep (h : InvD P s) (ht : Trans P s p l t) :
+    ∀ o q f ks, t.phase o = .building q (some (f, ks)) →
+      ∃ pre, P.refs f = pre ++ ks ∧ ∀ k ∈ pre, Dep t o k := by
+  obtain ⟨d1, d2⟩ := h
+  intro o q f ks hph'
+  have hmono := @Dep_mono P s t p l ht
+  have keep : ∀ q', s.phase o = .building q' (some (f, ks)) →
+      ∃ pre, P.refs f = pre ++ ks ∧ ∀ k ∈ pre, Dep t o k := by
+    intro q' hq
+    obtain ⟨pre, hp, hd⟩ := d2 _ _ _ _ hq
+    exact ⟨pre, hp, fun k hk => hmono (hd k hk)⟩
+  have lookupStep : ∀ q' k', p = o → s.phase o = .building q' (some (f, k' :: ks)) → Dep t o k' →
+      ∃ pre, P.refs f = pre ++ ks ∧ ∀ k ∈ pre, Dep t o k := by
+    intro q' k' _ hq hdep
+    obtain ⟨pre, hp, hd⟩ := d2 _ _ _ _ hq
+    refine ⟨pre ++ [k'], by simp [hp], ?_⟩
+    intro k hk
+    simp only [List.mem_append, List.mem_singleton] at hk
+    rcases hk with hk | hk
+    · exact hmono (hd k hk)
+    · subst hk; exact hdep
+  have := @mem_insertEdge
+  cases ht with
+  | start hp hi hc => grind
+  | pick hph hb =>
+    by_cases hop : o = p
+    · subst hop
+      simp only [upd_same] at hph'
+      injection hph' with e1 e2; injection e2 with e2; injection e2 with e2 e3
+      subst e2 e3
+      exact ⟨[], by simp, by simp⟩
+    · exact keep q (by simpa [upd_apply, hop] using hph')
+  | skip hph hb => grind
+  | @create f' k' ks' q' hph hl =>
+    by_cases hop : o = p
+    · subst hop
+      simp only [upd_same] at hph'
+      injection hph' with e1 e2; injection e2 with e2; injection e2 with e2 e3
+      subst e2 e3
+      exact lookupStep _ k' rfl hph ⟨o, lookup_append_of_none hl, .inl rfl⟩
+    · exact keep q (by simpa [upd_apply, hop] using hph')
+  | @hitNoEdge f' k' ks' q' o' hph hl ho =>
+    by_cases hop : o = p
+    · subst hop
+      simp only [upd_same] at hph'
+      injection hph' with e1 e2; injection e2 with e2; injection e2 with e2 e3
+      subst e2 e3
+      exact lookupStep _ k' rfl hph ⟨o', hl, by grind⟩
+    · exact keep q (by simpa [upd_apply, hop] using hph')
+  | hitPanic hph hl ho htr hd => exact keep q hph'
+  | @hitEdge f' k' ks' q' o' hph hl ho htr hd =>
+    by_cases hop : o = p
+    · subst hop
+      simp only [upd_same] at hph'
+      injection hph' with e1 e2; injection e2 with e2; injection e2 with e2 e3
+      subst e2 e3
+      exact lookupStep _ k' rfl hph ⟨o', hl, by grind⟩
+    · exact keep q (by simpa [upd_apply, hop] using hph')
+  | fnDone hph => grind
+  | markDone hph => grind
+  | waitSkip hph hu htr => grind
+  | waitCheck hph hu htr => grind
+  | waitRecv hph hu hd hn hm => grind
+  | waitEnd hph hu => grind
+
+theorem InvD_step (h : InvD P s) (ht : Trans P s p l t) : InvD P t :=
+  ⟨InvD_built_dep h ht, InvD_cur_dep h ht⟩
+
+theorem InvD_of_reachable (h : Reachable P s) : InvD P s := by
+  induction h with
+  | init => exact InvD_init P
+  | step _ ht ih => exact InvD_step ih ht
+
+end D
+
+/-! ### Group E: nothing is created or built that the program does not need -/
+
+/-- some package of the program depends on `f` -/
+def Needed (P : Prog) (f : FnId) : Prop := ∃ p, p < P.nproc ∧ Needs P p f
+
+structure InvE (P : Prog) (s : St) : Prop where
+  q_needed : ∀ o f, InQueue s o f → Needed P f
+  built_needed : ∀ f o, (f, o) ∈ s.built → Needed P f
+
+theorem InvE_init (P : Prog) : InvE P init := by
+  constructor <;> simp [init, InQueue, Phase.has]
+
+section E
+variable {P : Prog} {s t : St} {p : Pid} {l : Label}
+
+theorem InvE_q_needed (hd : InvD P s) (h : InvE P s) (ht : Trans P s p l t) :
+    ∀ o f, InQueue t o f → Needed P f := by
+  obtain ⟨e1, e2⟩ := h
+  have e1' : ∀ o f q cur, s.phase o = .building q cur → (f ∈ q ∨ ∃ ks, cur = some (f, ks)) →
+      Needed P f := by
+    intro o f q cur hq hm
+    exact e1 o f (by simpa [InQueue, Phase.has, hq] using hm)
+  have e1'' : ∀ o f, (s.phase o).has f → Needed P f := fun o f h => e1 o f h
+  intro o f hq
+  cases ht with
+  | start hp hi hc =>
+    by_cases hop : o = p
+    · subst hop
+      simp only [InQueue, upd_same, Phase.has, List.mem_map] at hq
+      rcases hq with ⟨n, hn, e⟩ | ⟨ks, hks⟩
+      · subst e; exact ⟨o, hp, .root hn⟩
+      · simp at hks
+    · exact e1 o f (by simpa [InQueue, upd_apply, hop] using hq)
+  | @create f' k ks q hph hl =>
+    by_cases hop : o = p
+    · subst hop
+      simp only [InQueue, upd_same, Phase.has, List.mem_append, List.mem_singleton] at hq
+      rcases hq with (hq | e) | ⟨ks', hks⟩
+      · exact e1' o f _ _ hph (.inl hq)
+      · subst e
+        obtain ⟨p', hp', hn⟩ := e1' o f' _ _ hph (.inr ⟨_, rfl⟩)
+        obtain ⟨pre, hpre, _⟩ := hd.cur_dep _ _ _ _ hph
+        exact ⟨p', hp', .ref hn (by rw [hpre]; simp)⟩
+      · injection hks with hks; injection hks with a b; subst a
+        exact e1' o f' _ _ hph (.inr ⟨_, rfl⟩)
+    · exact e1 o f (by simpa [InQueue, upd_apply, hop] using hq)
+  | _ => grind [InQueue, Phase.has]
+
+theorem InvE_built_needed (h : InvE P s) (ht : Trans P s p l t) :
+    ∀ f o, (f, o) ∈ t.built → Needed P f := by
+  obtain ⟨e1, e2⟩ := h
+  intro f o hb
+  cases ht with
+  | @fnDone f' q hph =>
+    simp only [List.mem_append, List.mem_singleton, Prod.mk.injEq] at hb
+    rcases hb with hb | ⟨a, _⟩
+    · exact e2 f o hb
+    · subst a; exact e1 p f (by simp [InQueue, Phase.has, hph])
+  | _ => exact e2 f o hb
+
+theorem InvE_step (hd : InvD P s) (h : InvE P s) (ht : Trans P s p l t) : InvE P t :=
+  ⟨InvE_q_needed hd h ht, InvE_built_needed h ht⟩
+
+theorem InvE_of_reachable (h : Reachable P s) : InvE P s := by
+  induction h with
+  | init => exact InvE_init P
+  | step hs ht ih => exact InvE_step (InvD_of_reachable hs) ih ht
+
+end E
 end Verif.C18
